@@ -4,7 +4,18 @@ here from the textbook weighted definition in plain Python (math.fsum); toleranc
 to rounding); counts, supports and zeroed weights are compared exactly.
 Distance metrics are checked in exactly the three documented usages: (a) pair=True on two points (1-D, axis=None) ->
 the point-to-point distance; (b) pair=False, axis=0 on arrays of points (N,d),(M,d) -> the N x M matrix of distances;
-(c) pair=True, axis=1 on two (N,d) arrays -> the N row-wise distances."""
+(c) pair=True, axis=1 on two (N,d) arrays -> the N row-wise distances.
+A second set of families ("option cases", gen_opt) exercises the documented optional arguments: impose_unweighted
+nullable (omitted / True / False, keyword or positional); index selections empty / all / single / proper / repeated /
+negative; exact zeros placed on / off the designated indices up to "all mass on the designated indices" and "all
+designated already zero"; impose_collapse with pairs in the documented form (a set of tuples) and as a list, in any
+order and orientation, forests and cliques (all close pairs of a group); trimming k scalar / (lo,hi) from 0 up to
+lo+hi >= 100 with clip False/True; normalize / impose_sum with mass 0, zsum, zmass, 'l1'/'l2'/'l3' and the default;
+impose_weight_norm default mass; mean tol; Lnorm axis and default p; metrics dmin and default p.
+A request for which the documentation defines no result (no weight left off the designated indices and nothing that
+could be reweighted; everything trimmed) is counted as degenerate: nothing is demanded, an exception is noted under
+extra['aborted'].  impose_unweighted(nullable=False) is documented to "avoid null weights by reweighting non-index
+weights", so it is defined (zeros on the designated indices, total and mean kept) whenever a non-index point exists."""
 import math
 import random
 from .common import *       # noqa
@@ -54,6 +65,7 @@ def o_trim(x, w, k, clip):
     tot = math.fsum(b for _, b in pairs)
     xs, keep, c0 = [], [], 0.0
     cum = [math.fsum(b for _, b in pairs[:i + 1]) / tot for i in range(len(pairs))]
+    cum = [next((q for q in (klo, 1.0 - khi) if abs(v - q) < 1e-12), v) for v in cum]   # a tie is a tie
     for i, (a, b) in enumerate(pairs):
         c1 = cum[i]
         r = max(0.0, min(c1, 1.0 - khi) - max(c0, klo))
@@ -161,7 +173,122 @@ def gen_case(name, rng):
     return c
 
 
+# ----------------------------------------------------------------------------- option cases (documented optional arguments)
+OPT = ['impose_support', 'impose_unweighted', 'impose_collapse', 'impose_tmean', 'impose_tvariance', 'impose_tstd',
+       'normalize', 'impose_sum', 'impose_weight_norm', 'mean', 'Lnorm'] + METRICS
+KS = [0, 10, 25, 12.5, 20, 40, 49, [10, 20], [0, 30], [30, 0], [0, 0], [20, 40], [45, 45], [5, 60], 50, [60, 40], [70, 50]]
+ABORTS = []     # exceptions seen on degenerate requests (drained by work)
+
+
+def place_zeros(rng, n, zero, wkind):
+    """positive weights with exact zeros placed relative to the designated (to be zeroed) set; total stays > 0"""
+    w = [1.0] * n if wkind == 'equal' else [rng.uniform(0.1, 2.0) for _ in range(n)]
+    on, off = sorted(zero), [i for i in range(n) if i not in zero]
+    kill = []
+    if wkind == 'zero-on' and on:
+        kill = rng.sample(on, rng.randint(1, len(on)))
+    elif wkind == 'zero-off' and len(off) > 1:
+        kill = rng.sample(off, rng.randint(1, len(off) - 1))
+    elif wkind == 'all-on' and on:          # all the mass sits on the designated indices
+        kill = off + (rng.sample(on, rng.randint(0, len(on) - 1)) if rng.random() < 0.3 else [])
+    elif wkind == 'all-off' and off:        # the designated weights are zero already
+        kill = on + (rng.sample(off, rng.randint(0, len(off) - 1)) if rng.random() < 0.3 else [])
+    elif wkind == 'mixed':
+        kill = [i for i in range(n) if rng.random() < 0.4]
+        kill = kill[:-1] if len(kill) == n else kill
+    for i in kill:
+        w[i] = 0.0
+    return w
+
+
+def gen_opt(name, rng):
+    if name in METRICS or name == 'Lnorm':
+        c = gen_case(name, rng)
+        c['opt'] = 1
+        if name == 'Lnorm':
+            c.update(axis=rng.choice([0, 1]), p=rng.choice([None, 0, 1, 2, 3, 'inf']))     # None: p omitted (default 1)
+            c['X'] = [[rng.choice([0.0, float(rng.randint(-3, 3)), rng.uniform(-3, 3)]) for _ in range(rng.randint(1, 4))]
+                      for _ in range(rng.randint(1, 3))]
+            c['X'] = [r[:len(c['X'][0])] + [0.0] * (len(c['X'][0]) - len(r)) for r in c['X']]
+        else:
+            c.update(dmin=rng.choice([0, 1, 2]), p=rng.choice([None, 1, 2, 4, 'inf']))     # None: p omitted (default 3)
+        return c
+    n = rng.randint(2, 8)
+    x = [rng.choice([round(rng.uniform(-5, 10), 1), rng.uniform(-5, 10)]) for _ in range(n)]
+    c = dict(fn=name, x=x, opt=1, t=rng.choice([0.5, 2.0, 7.25, -3.0]) if name == 'impose_tmean' else rng.choice([0.5, 2.0, 7.25]))
+    WK = ['equal', 'positive', 'zero-on', 'zero-off', 'all-on', 'all-off', 'mixed']
+    if name in ('impose_support', 'impose_unweighted'):
+        ik = rng.choice(['empty', 'all', 'single', 'proper', 'proper', 'repeated', 'negative'])
+        sel = [] if ik == 'empty' else list(range(n)) if ik == 'all' else [rng.randrange(n)] if ik == 'single' else \
+            rng.sample(range(n), rng.randint(1, n - 1))
+        idx = list(sel)
+        if ik == 'repeated':
+            idx += [rng.choice(sel) - rng.choice([0, n]) for _ in range(rng.randint(1, 3))]
+            rng.shuffle(idx)
+        elif ik == 'negative':
+            idx = [i - n for i in idx]
+        elif ik == 'proper':
+            idx = [i - n if rng.random() < 0.25 else i for i in idx]
+        zero = set(sel) if name == 'impose_unweighted' else set(range(n)) - set(sel)
+        c.update(index=idx, ikind=ik, wk=rng.choice(WK))
+        c['w'] = place_zeros(rng, n, zero, c['wk'])
+        if name == 'impose_unweighted':     # 'omit': argument not given; nullable passed by keyword or positionally
+            c.update(nullable=rng.choice(['omit', True, False, False]), npos=rng.random() < 0.5)
+    elif name == 'impose_collapse':
+        form = rng.choice(['forest', 'clique'])
+        mem = rng.sample(range(n), rng.randint(2, min(n, 6)))
+        cut = rng.choice([len(mem)] + list(range(2, len(mem) - 1)))
+        pairs = []
+        for g in (mem[:cut], mem[cut:]):
+            if form == 'clique':            # every pair of a group of mutually close points, smaller index first
+                g = g[:4]
+                pairs += [[a, b] for a in sorted(g) for b in sorted(g) if a < b]
+            else:                           # a random tree on the group, either orientation
+                pairs += [rng.choice([[g[rng.randrange(j)], g[j]], [g[j], g[rng.randrange(j)]]]) for j in range(1, len(g))]
+        rng.shuffle(pairs)
+        if rng.random() < 0.25:
+            pairs = [[i - n if rng.random() < 0.5 else i for i in p] for p in pairs]
+        zero = set(i % n for p in pairs for i in p)
+        c.update(pairs=pairs, form=form, container=rng.choice(['list', 'set']), wk=rng.choice(WK))
+        c['w'] = place_zeros(rng, n, zero, c['wk'])
+    elif name in ('impose_tmean', 'impose_tvariance', 'impose_tstd'):
+        c.update(k=rng.choice(KS), clip=rng.random() < 0.5, kform=rng.choice(['tuple', 'list']),
+                 wk=rng.choice(['none', 'equal', 'positive', 'mixed']))
+        c['w'] = None if c['wk'] == 'none' else place_zeros(rng, n, set(), c['wk'])
+    elif name in ('normalize', 'impose_sum', 'impose_weight_norm'):
+        c['wk'] = rng.choice(['equal', 'positive', 'mixed'])
+        c['w'] = place_zeros(rng, n, set(), c['wk'])
+        if name == 'impose_weight_norm':
+            c['mkind'] = 'default'
+        else:
+            c['mkind'] = rng.choice(['float', 'zero', 'zero'] + (['l1', 'l2', 'l3', 'default'] if name == 'normalize' else []))
+            c.update(zsum=rng.choice(['omit', False, True]), zmass=rng.choice(['omit', 1.0, 2.5, 0.5]))
+    elif name == 'mean':
+        c['wk'] = rng.choice(['none', 'equal', 'positive', 'mixed'])
+        c['w'] = None if c['wk'] == 'none' else place_zeros(rng, n, set(), c['wk'])
+        c['tol'] = rng.choice([0, 0.5, 3.0, 20.0])
+    return c
+
+
 # ----------------------------------------------------------------------------- checks: return [(clause, tag, detail)]
+def components(n, pairs):
+    """connected groups (size >= 2) of the graph whose edges are the pairs"""
+    comp = {i: {i} for i in range(n)}
+    for i, j in pairs:
+        if comp[i % n] is not comp[j % n]:
+            u = comp[i % n] | comp[j % n]
+            for v in u:
+                comp[v] = u
+    return sorted(set(tuple(sorted(g)) for g in comp.values() if len(g) > 1))
+
+
+def defined_or_abort(c, f, *a, **k):
+    """a request the documentation leaves undefined: nothing is demanded; an exception is only noted"""
+    try:
+        f(*a, **k)
+    except Exception as e:      # noqa
+        ABORTS.append('%s: %s' % (c['fn'], type(e).__name__))
+    return [], True
 def check(c):
     import mystic.math.measures as mm
     import mystic.math.distance as md
